@@ -138,7 +138,8 @@ def run_history(capset, starttls, faults1, wrap_fails, pre, post, second, faults
     if wfault is not None:
         import socket as _socket
         s.plain.write_fault = (wfault[1], lambda: _socket.timeout("timed out"), wfault[0])
-    o1 = s.call("connect", "user", "pass", starttls=starttls)
+    # first connect in the positional form of the documented signature (login, password, authz_id, starttls), second one by keyword
+    o1 = s.call("connect", "user", "pass", "", starttls)
     for name in post:
         do(name, "after connect")
     o2 = None
